@@ -8,15 +8,25 @@
 //	c08-after-error-engine   the engine's handler saw a request that follows the parse error, or the connection was
 //	                         not closed after the error
 //
-// ops:   C <mode 0|1|2>
+// ops:   C <mode>      0 non-blocking, 1 blocking, 2 mixed; 3, 4, 5 the same three over TLS
 //        S <id> <hex stream> <cut1,cut2,...|whole>
-// result R handled=<paths seen by the engine's handler> expect=<paths delivered before the error> err=<code> closed=<0|1>
-// (no Lean driver: the model-level statement is theorem c08_silent_after_close; this stream is implementation only)
+// result R handled=<paths seen by the engine's handler> closed=<server closed the connection first: 0|1>
+//          onclose=<number of Engine.OnClose callbacks for the connection> expect=<…> err=<code>
+// The Lean driver runs the engine model (Model/HttpEngine.lean: runNB / runB / runTlsNB / runTlsB over the parser
+// model) on the same writes and prints handled/closed/onclose; `expect`/`err` come from the real parser alone.
 package main
 
 import (
+	"crypto/ecdsa"
+	"crypto/elliptic"
+	"crypto/rand"
+	stdtls "crypto/tls"
+	"crypto/x509"
+	"crypto/x509/pkix"
+	"encoding/pem"
 	"fmt"
 	"io"
+	"math/big"
 	"net"
 	"net/http"
 	"strconv"
@@ -27,19 +37,51 @@ import (
 	"harness/internal/hx"
 	"harness/internal/lp"
 
+	ltls "github.com/lesismal/llib/std/crypto/tls"
 	"github.com/lesismal/nbio/logging"
 	"github.com/lesismal/nbio/nbhttp"
 )
 
+// selfSigned makes a throw-away certificate for the TLS cells.
+func selfSigned() (certPEM, keyPEM []byte, err error) {
+	key, err := ecdsa.GenerateKey(elliptic.P256(), rand.Reader)
+	if err != nil {
+		return nil, nil, err
+	}
+	tmpl := &x509.Certificate{SerialNumber: big.NewInt(1), Subject: pkix.Name{CommonName: "localhost"},
+		NotBefore: time.Now().Add(-time.Hour), NotAfter: time.Now().Add(24 * time.Hour),
+		KeyUsage: x509.KeyUsageDigitalSignature, ExtKeyUsage: []x509.ExtKeyUsage{x509.ExtKeyUsageServerAuth},
+		DNSNames: []string{"localhost"}, IPAddresses: []net.IP{net.ParseIP("127.0.0.1")}}
+	der, err := x509.CreateCertificate(rand.Reader, tmpl, tmpl, &key.PublicKey, key)
+	if err != nil {
+		return nil, nil, err
+	}
+	kb, err := x509.MarshalECPrivateKey(key)
+	if err != nil {
+		return nil, nil, err
+	}
+	return pem.EncodeToMemory(&pem.Block{Type: "CERTIFICATE", Bytes: der}), pem.EncodeToMemory(&pem.Block{Type: "EC PRIVATE KEY", Bytes: kb}), nil
+}
+
 type server struct {
-	e    *nbhttp.Engine
-	addr string
-	mu   sync.Mutex
-	seen map[string][]string // case id -> request paths in arrival order
+	e       *nbhttp.Engine
+	addr    string
+	addrTLS string
+	mu      sync.Mutex
+	seen    map[string][]string // case id -> request paths in arrival order
+	onClose map[string]int      // client address -> number of Engine.OnClose callbacks
 }
 
 func startServer(mode int) (*server, error) {
-	s := &server{seen: map[string][]string{}}
+	s := &server{seen: map[string][]string{}, onClose: map[string]int{}}
+	certPEM, keyPEM, err := selfSigned()
+	if err != nil {
+		return nil, err
+	}
+	cert, err := ltls.X509KeyPair(certPEM, keyPEM)
+	if err != nil {
+		return nil, err
+	}
 	mux := http.HandlerFunc(func(w http.ResponseWriter, r *http.Request) {
 		if r.Body != nil {
 			_, _ = io.ReadAll(r.Body)
@@ -52,8 +94,16 @@ func startServer(mode int) (*server, error) {
 		}
 		_, _ = w.Write([]byte("ok"))
 	})
-	s.e = nbhttp.NewEngine(nbhttp.Config{Network: "tcp", Addrs: []string{"127.0.0.1:0"}, IOMod: mode, Handler: mux,
+	s.e = nbhttp.NewEngine(nbhttp.Config{Network: "tcp", Addrs: []string{"127.0.0.1:0"}, AddrsTLS: []string{"127.0.0.1:0"},
+		TLSConfig: &ltls.Config{Certificates: []ltls.Certificate{cert}}, IOMod: mode, Handler: mux,
 		MaxBlockingOnline: 2, NPoller: 2, KeepaliveTime: 30 * time.Second})
+	s.e.OnClose(func(c net.Conn, err error) {
+		if c != nil && c.RemoteAddr() != nil {
+			s.mu.Lock()
+			s.onClose[c.RemoteAddr().String()]++
+			s.mu.Unlock()
+		}
+	})
 	if err := s.e.Start(); err != nil {
 		return nil, err
 	}
@@ -62,6 +112,10 @@ func startServer(mode int) (*server, error) {
 		return nil, fmt.Errorf("no listener address")
 	}
 	s.addr = s.e.AddrConfigs[0].Addr
+	if len(s.e.AddrConfigsTLS) == 0 || strings.HasSuffix(s.e.AddrConfigsTLS[0].Addr, ":0") {
+		return nil, fmt.Errorf("no TLS listener address")
+	}
+	s.addrTLS = s.e.AddrConfigsTLS[0].Addr
 	return s, nil
 }
 
@@ -72,7 +126,7 @@ func (s *server) paths(id string) []string {
 }
 
 // expected: what the real parser alone delivers for the stream, and the error it ends with.
-func expected(stream []byte, id string) ([]string, int) {
+func expected(stream []byte, id string) ([]string, int, string, string) {
 	ss := hx.NewSess(false, 0, 0)
 	r := ss.Feed(stream)
 	var ps []string
@@ -82,15 +136,27 @@ func expected(stream []byte, id string) ([]string, int) {
 			ps = append(ps, strings.SplitN(parts[1], "?", 2)[0])
 		}
 	}
-	return ps, r.Errc
+	return ps, r.Errc, strings.Join(ss.R.BadURL, ","), strings.Join(ss.R.BadProto, ",")
 }
 
-func runCase(s *server, id string, stream []byte, cuts []int) (handled []string, closed bool, err error) {
-	c, err := net.DialTimeout("tcp", s.addr, 2*time.Second)
-	if err != nil {
-		return nil, false, err
+func (s *server) closes(addr string) int {
+	s.mu.Lock()
+	defer s.mu.Unlock()
+	return s.onClose[addr]
+}
+
+func runCase(s *server, useTLS bool, id string, stream []byte, cuts []int, expectClose, closeNow bool) (handled []string, closed bool, onclose int, err error) {
+	var c net.Conn
+	if useTLS {
+		d := &net.Dialer{Timeout: 2 * time.Second}
+		c, err = stdtls.DialWithDialer(d, "tcp", s.addrTLS, &stdtls.Config{InsecureSkipVerify: true})
+	} else {
+		c, err = net.DialTimeout("tcp", s.addr, 2*time.Second)
 	}
-	defer c.Close()
+	if err != nil {
+		return nil, false, 0, err
+	}
+	local := c.LocalAddr().String()
 	rest := stream
 	for len(rest) > 0 {
 		n := len(rest)
@@ -108,8 +174,20 @@ func runCase(s *server, id string, stream []byte, cuts []int) (handled []string,
 			time.Sleep(15 * time.Millisecond)
 		}
 	}
-	// read until the server closes the connection, or give up
-	_ = c.SetReadDeadline(time.Now().Add(1200 * time.Millisecond))
+	if closeNow {
+		_ = c.Close()
+		for i := 0; i < 300 && s.closes(local) == 0; i++ {
+			time.Sleep(10 * time.Millisecond)
+		}
+		time.Sleep(50 * time.Millisecond)
+		return s.paths(id), false, s.closes(local), nil
+	}
+	// read until the server closes the connection, or give up (one-sided tolerance: generous when a close is due)
+	wait := 400 * time.Millisecond
+	if expectClose {
+		wait = 4 * time.Second
+	}
+	_ = c.SetReadDeadline(time.Now().Add(wait))
 	buf := make([]byte, 4096)
 	for {
 		_, rerr := c.Read(buf)
@@ -122,13 +200,18 @@ func runCase(s *server, id string, stream []byte, cuts []int) (handled []string,
 			break
 		}
 	}
-	time.Sleep(20 * time.Millisecond)
-	return s.paths(id), closed, nil
+	_ = c.Close()
+	// the engine must run OnClose for this connection: exactly once
+	for i := 0; i < 300 && s.closes(local) == 0; i++ {
+		time.Sleep(10 * time.Millisecond)
+	}
+	time.Sleep(30 * time.Millisecond)
+	return s.paths(id), closed, s.closes(local), nil
 }
 
 func exec(e *lp.Exec) {
 	logging.SetLevel(logging.LevelNone)
-	var servers [3]*server
+	var servers [3]*server // one engine per I/O mode, each with a plain and a TLS listener
 	mode := 0
 	defer func() {
 		for _, s := range servers {
@@ -143,44 +226,53 @@ func exec(e *lp.Exec) {
 		if len(f) == 0 {
 			continue
 		}
-		e.P("> %s", line)
+		if f[0] != "S" {
+			e.P("> %s", line)
+		}
 		switch f[0] {
 		case "C":
 			mode, _ = strconv.Atoi(f[1])
-			if mode < 0 || mode > 2 {
+			if mode < 0 || mode > 5 {
 				e.P("bad-op")
 				continue
 			}
-			if servers[mode] == nil {
-				s, err := startServer(mode)
+			if servers[mode%3] == nil {
+				s, err := startServer(mode % 3)
 				if err != nil {
 					e.P("R start-failed %v", err)
 					continue
 				}
-				servers[mode] = s
+				servers[mode%3] = s
 			}
 			e.P("ok")
 		case "S":
-			if len(f) != 4 || servers[mode] == nil {
+			if len(f) < 4 || servers[mode%3] == nil {
+				e.P("> %s", line)
 				e.P("bad-op")
 				continue
 			}
 			id := f[1]
 			stream := lp.Unhex(f[2])
 			var cuts []int
+			closeNow := strings.HasSuffix(f[3], "!") // close right after the last write, without waiting for responses
+			f[3] = strings.TrimSuffix(f[3], "!")
 			if f[3] != "whole" {
 				for _, x := range strings.Split(f[3], ",") {
 					n, _ := strconv.Atoi(x)
 					cuts = append(cuts, n)
 				}
 			}
-			want, errc := expected(stream, id)
-			got, closed, err := runCase(servers[mode], id, stream, cuts)
+			want, errc, badurl, badproto := expected(stream, id)
+			e.P("> S %s %s %s badurl=%s badproto=%s", f[1], f[2], f[3], badurl, badproto)
+			got, closed, onclose, err := runCase(servers[mode%3], mode >= 3, id, stream, cuts, errc != 0, closeNow)
 			if err != nil {
 				e.P("R dial-failed %v", err)
 				continue
 			}
-			mn := map[int]string{0: "nonblocking", 1: "blocking", 2: "mixed"}[mode]
+			mn := map[int]string{0: "nonblocking", 1: "blocking", 2: "mixed", 3: "tls-nonblocking", 4: "tls-blocking", 5: "tls-mixed"}[mode]
+			if onclose != 1 {
+				e.Oracle("c08-engine-onclose", "mode=%s: Engine.OnClose ran %d times for the connection (err=%d)", mn, onclose, errc)
+			}
 			e.Count("cases", mn)
 			if errc != 0 {
 				e.Count("with_error", mn)
@@ -188,7 +280,7 @@ func exec(e *lp.Exec) {
 					e.Oracle("c08-after-error-engine", "mode=%s: the parser fails with err=%d after delivering [%s], but the engine's handler saw [%s]",
 						mn, errc, strings.Join(want, ","), strings.Join(got, ","))
 				} else if !closed {
-					e.Oracle("c08-after-error-engine", "mode=%s: parse error err=%d but the connection was not closed within 1.2s", mn, errc)
+					e.Oracle("c08-after-error-engine", "mode=%s: parse error err=%d but the connection was not closed within 4s", mn, errc)
 				}
 			} else if strings.Join(got, ",") != strings.Join(want, ",") {
 				e.Oracle("c08-engine-delivery", "mode=%s: valid stream: parser delivers [%s], engine handler saw [%s]", mn, strings.Join(want, ","), strings.Join(got, ","))
@@ -198,7 +290,7 @@ func exec(e *lp.Exec) {
 			if closed {
 				cl = 1
 			}
-			e.P("R handled=%s expect=%s err=%d closed=%d", strings.Join(got, ","), strings.Join(want, ","), errc, cl)
+			e.P("R handled=%s closed=%d onclose=%d expect=%s err=%d", strings.Join(got, ","), cl, onclose, strings.Join(want, ","), errc)
 		default:
 			e.P("bad-op")
 		}
@@ -242,7 +334,7 @@ func malformed(g *lp.Gen, id string) string {
 
 func gen(g *lp.Gen) {
 	for cs := 0; cs < g.N; cs++ {
-		mode := cs % 3
+		mode := cs % 6
 		id := fmt.Sprintf("c%d-%d", g.Rng.Int31(), cs)
 		var parts []string
 		for i, n := 0, g.Intn(3); i < n; i++ {
@@ -270,6 +362,9 @@ func gen(g *lp.Gen) {
 			if len(stream) > 2 {
 				cuts = strconv.Itoa(1 + g.Intn(len(stream)-1))
 			}
+		}
+		if !bad && g.Chance(1, 2) { // a valid stream, and the client closes right after its last write
+			cuts += "!"
 		}
 		g.P("C %d", mode)
 		g.P("S %s %s %s", id, lp.Hex([]byte(stream)), cuts)
